@@ -93,9 +93,15 @@ def check_orthogonality(residual, leaves, subset, cov, site, ctx,
                 ok = True
                 break
             prev = I
-        if not ok:
+        if not ok and abs(I) - 2 * abs(I - prev) <= tol:
+            # the two finest resolutions disagree by more than the margin by
+            # which the mean exceeds the tolerance: not decidable here
             cov.inc('unresolved')
             continue
+        if not ok:
+            # not converged to 20 % of the tolerance, but the mean exceeds
+            # the tolerance by more than twice the resolution error
+            cov.inc('judged_despite_slow_convergence')
         cov.inc('elements_judged')
         cov.inc('resolution_used.{:02d}'.format(n))
         ratio = abs(I) / max(A, 1e-300)
